@@ -43,6 +43,8 @@ class Resolver:
         self.b = body
         self.prog = prog
         self.memo = {}
+        self.pmemo = {}
+        self.cuts = []
 
     # -------------------------------------------------------------- places
     def place(self, p, depth=0, stack=()):
@@ -88,8 +90,18 @@ class Resolver:
 
     # -------------------------------------------------------------- locals
     def local(self, l, depth=0, stack=()):
+        """term of a local.  Results that contain a cut point to a local that is still being
+        resolved further up the stack are only cached provisionally (for the duration of the
+        current top-level query); clean results are cached for good."""
         if l in self.memo:
             return self.memo[l]
+        if not stack:
+            self.pmemo = {}
+            self.cuts = []
+        if l in self.pmemo:
+            r, cs = self.pmemo[l]
+            self.cuts.extend(cs)
+            return r
         b = self.b
         if b.is_arg(l):
             if b.kind == "Closure" and l == 1:
@@ -99,7 +111,9 @@ class Resolver:
             self.memo[l] = r
             return r
         if l in stack or depth > MAXDEPTH:
+            self.cuts.append(l)
             return ("local", l)
+        mark = len(self.cuts)
         defs = b.defs.get(l, [])
         if not defs:
             r = ("local", l)
@@ -115,9 +129,15 @@ class Resolver:
                 r = alts[0]
             else:
                 r = ("phi", l, tuple(alts))
-        # always memoise: a cut point ('local', x) inside r marks a cyclic (loop-carried)
-        # dependence; keeping the first result makes resolution linear in the body size
-        self.memo[l] = r
+        mine = set(self.cuts[mark:])
+        outer = mine & set(stack)
+        if outer or depth > MAXDEPTH - 2:
+            self.pmemo[l] = (r, tuple(outer))
+            del self.cuts[mark:]
+            self.cuts.extend(outer)
+        else:
+            self.memo[l] = r
+            del self.cuts[mark:]
         return r
 
     def from_def(self, d, depth, stack):
